@@ -154,6 +154,74 @@ fn n_ip_exts_slice_error(e: &err::ip_exts::HeadersSliceError) -> NErr {
     }
 }
 
+/// neutral form of a `LaxIpSlice::from_slice`-shaped result (also used for the views that re-decode a
+/// quoted packet, e.g. `icmpv6::*PayloadSlice::as_lax_ip_slice`)
+pub fn lax_ip_result(
+    res: Result<(LaxIpSlice, Option<(err::ipv6_exts::HeaderSliceError, err::Layer)>), err::ip::LaxHeaderSliceError>,
+    cx: &mut Cx,
+    deep: bool,
+) -> IpOut {
+    let mut layers = Vec::with_capacity(6);
+    let mut budget = false;
+    match res {
+        Ok((s, stop)) => {
+            match &s {
+                LaxIpSlice::Ipv4(x) => ls_lax_ipv4(cx, x, &mut layers),
+                LaxIpSlice::Ipv6(x) => budget |= ls_lax_ipv6(cx, x, &mut layers),
+            }
+            if deep {
+                exhaust::lax_ip_slice_common(cx, &s);
+                match &s {
+                    LaxIpSlice::Ipv4(x) => exhaust::lax_ipv4_slice(cx, x),
+                    LaxIpSlice::Ipv6(x) => budget |= !exhaust::lax_ipv6_slice(cx, x),
+                }
+                if let Some((e, _)) = &stop {
+                    exhaust::fmt_err(cx, e);
+                }
+            }
+            {
+                let (src, dst): (Vec<u8>, Vec<u8>) = match &s {
+                    LaxIpSlice::Ipv4(x) => (x.header().source().to_vec(), x.header().destination().to_vec()),
+                    LaxIpSlice::Ipv6(x) => (x.header().source().to_vec(), x.header().destination().to_vec()),
+                };
+                let addr = |a: core::net::IpAddr| -> Vec<u8> {
+                    match a {
+                        core::net::IpAddr::V4(v) => v.octets().to_vec(),
+                        core::net::IpAddr::V6(v) => v.octets().to_vec(),
+                    }
+                };
+                let ok = s.is_fragmenting_payload() == s.payload().fragmented
+                    && s.payload_ip_number() == s.payload().ip_number
+                    && addr(s.source_addr()) == src
+                    && addr(s.destination_addr()) == dst
+                    && s.ipv4().is_some() == matches!(s, LaxIpSlice::Ipv4(_))
+                    && s.ipv6().is_some() == matches!(s, LaxIpSlice::Ipv6(_));
+                if !ok {
+                    if let Some(l) = layers.first_mut() {
+                        l.p("accessor_mismatch", 2u8);
+                    }
+                }
+            }
+            let pay = pay_lax(cx, s.payload());
+            IpOut {
+                out: NOut {
+                    layers,
+                    err: None,
+                    stop: stop.map(|(e, l)| (n_ipv6_exts_slice_error(&e), lay(l))),
+                },
+                pay,
+                budget_exceeded: budget,
+            }
+        }
+        Err(e) => {
+            if deep {
+                exhaust::fmt_err(cx, &e);
+            }
+            err_out(n_lax_ip_header_error(&e))
+        }
+    }
+}
+
 pub fn decode(entry: IpEntry, input: &[u8], cx: &mut Cx, deep: bool) -> IpOut {
     let mut layers = Vec::with_capacity(6);
     let mut budget = false;
@@ -169,6 +237,39 @@ pub fn decode(entry: IpEntry, input: &[u8], cx: &mut Cx, deep: bool) -> IpOut {
                     match &s {
                         IpSlice::Ipv4(x) => exhaust::ipv4_slice(cx, x),
                         IpSlice::Ipv6(x) => budget |= !exhaust::ipv6_slice(cx, x),
+                    }
+                }
+                // the accessors of the version-dispatching wrapper answer like the variant they wrap
+                {
+                    let (src, dst): (Vec<u8>, Vec<u8>) = match &s {
+                        IpSlice::Ipv4(x) => (x.header().source().to_vec(), x.header().destination().to_vec()),
+                        IpSlice::Ipv6(x) => (x.header().source().to_vec(), x.header().destination().to_vec()),
+                    };
+                    let addr = |a: core::net::IpAddr| -> Vec<u8> {
+                        match a {
+                            core::net::IpAddr::V4(v) => v.octets().to_vec(),
+                            core::net::IpAddr::V6(v) => v.octets().to_vec(),
+                        }
+                    };
+                    let ok = s.is_fragmenting_payload() == s.payload().fragmented
+                        && s.payload_ip_number() == s.payload().ip_number
+                        && addr(s.source_addr()) == src
+                        && addr(s.destination_addr()) == dst
+                        && addr(s.header().source_addr()) == src
+                        && addr(s.header().destination_addr()) == dst
+                        && s.ipv4().is_some() == matches!(s, IpSlice::Ipv4(_))
+                        && s.ipv6().is_some() == matches!(s, IpSlice::Ipv6(_))
+                        && s.header().is_ipv4() == matches!(s, IpSlice::Ipv4(_))
+                        && s.header().is_ipv6() == matches!(s, IpSlice::Ipv6(_))
+                        && s.header().ipv4().is_some() == matches!(s, IpSlice::Ipv4(_))
+                        && s.header().ipv6().is_some() == matches!(s, IpSlice::Ipv6(_))
+                        && s.header().ipv4_exts().is_some() == matches!(s, IpSlice::Ipv4(_))
+                        && s.header().ipv6_exts().is_some() == matches!(s, IpSlice::Ipv6(_))
+                        && s.header().version() == if matches!(s, IpSlice::Ipv4(_)) { 4 } else { 6 };
+                    if !ok {
+                        if let Some(l) = layers.first_mut() {
+                            l.p("accessor_mismatch", 2u8);
+                        }
                     }
                 }
                 let pay = pay_strict(cx, s.payload());
@@ -232,40 +333,7 @@ pub fn decode(entry: IpEntry, input: &[u8], cx: &mut Cx, deep: bool) -> IpOut {
                 }
             }
         }
-        IpEntry::LaxIpSlice => match LaxIpSlice::from_slice(input) {
-            Ok((s, stop)) => {
-                match &s {
-                    LaxIpSlice::Ipv4(x) => ls_lax_ipv4(cx, x, &mut layers),
-                    LaxIpSlice::Ipv6(x) => budget |= ls_lax_ipv6(cx, x, &mut layers),
-                }
-                if deep {
-                    exhaust::lax_ip_slice_common(cx, &s);
-                    match &s {
-                        LaxIpSlice::Ipv4(x) => exhaust::lax_ipv4_slice(cx, x),
-                        LaxIpSlice::Ipv6(x) => budget |= !exhaust::lax_ipv6_slice(cx, x),
-                    }
-                    if let Some((e, _)) = &stop {
-                        exhaust::fmt_err(cx, e);
-                    }
-                }
-                let pay = pay_lax(cx, s.payload());
-                IpOut {
-                    out: NOut {
-                        layers,
-                        err: None,
-                        stop: stop.map(|(e, l)| (n_ipv6_exts_slice_error(&e), lay(l))),
-                    },
-                    pay,
-                    budget_exceeded: budget,
-                }
-            }
-            Err(e) => {
-                if deep {
-                    exhaust::fmt_err(cx, &e);
-                }
-                err_out(n_lax_ip_header_error(&e))
-            }
-        },
+        IpEntry::LaxIpSlice => lax_ip_result(LaxIpSlice::from_slice(input), cx, deep),
         IpEntry::LaxIpv4Slice => match LaxIpv4Slice::from_slice(input) {
             Ok((s, stop)) => {
                 ls_lax_ipv4(cx, &s, &mut layers);
